@@ -200,7 +200,10 @@ def xmlSafe(value: str | None) -> str:
     """
     if value is None:
         return ""
-    return value.replace('&', '&amp;')
+    if not isinstance(value, str):
+        value = str(value)
+    return (value.replace('&', '&amp;').replace('<', '&lt;')
+            .replace('>', '&gt;').replace('"', '&quot;'))
 
 @custom_tags.app_template_filter()
 def sortedAttributes(value):
